@@ -61,7 +61,7 @@ inline size_t cstr(const char *s, const char *what) {
 // An input copy whose end coincides with the end of a heap allocation (so every over-read is visible).
 struct ExactBuf {
     uint8_t *p; size_t n;
-    ExactBuf(const uint8_t *d, size_t len) : n(len) { p = (uint8_t *) malloc(len ? len : 1); if (len) memcpy(p, d, len); }
+    ExactBuf(const uint8_t *d, size_t len) : n(len) { p = (uint8_t *) malloc(len ? len : 1); if (len) { if (d) memcpy(p, d, len); else memset(p, 0, len); } }
     ~ExactBuf() { free(p); }
     ExactBuf(const ExactBuf &) = delete;
     bool contains(const void *q, size_t len) const {
